@@ -472,10 +472,11 @@ class Gen:
     def gen_class(self, bases=(), ns=None, nested_in=None, abstract_root=False):
         r = self.r
         name = self.ident("Cls")
-        q = (ns + "::" if ns else "") + name
+        q = (nested_in["qname"] + "::" if nested_in else (ns + "::" if ns else "")) + name
         cls = dict(name=name, qname=q, lib=self.name, ns=ns, bases=[dict(qname=b, virtual=v) for b, v in bases],
                    ctors=[], methods=[], members=[], enums=[], properties=[], seqs=[], doc=None, complete=False,
-                   copyable=True, abstract=False, nested=[])
+                   copyable=True, abstract=False, nested=[], outer=nested_in["qname"] if nested_in else None,
+                   seqprops=[], depth=(nested_in["depth"] + 1) if nested_in else 0)
         self.classes[q] = cls
         self.model["classes"].append(cls)
         cls["doc"] = self.doc()
@@ -486,6 +487,14 @@ class Gen:
         # nested enum
         if r.random() < 0.4 * self.size:
             cls["enums"].append(self.gen_enum(owner=cls, indent=ind)["qname"])
+        # nested class (up to two levels), emitted inline in the published section
+        if getattr(self, "ext", False) and cls["depth"] < 2 and r.random() < (0.45 if cls["depth"] == 0 else 0.5):
+            sv_size = self.size
+            self.size = min(self.size, 0.5)
+            inner = self.gen_class(nested_in=cls)
+            self.size = sv_size
+            cls["nested"].append(inner["qname"])
+            self.h.append("PUBLISHED:")
         # data members (declared first so ctors can initialise them)
         members_decl = []
         for i in range(r.choice([0, 1, 2, 3]) if self.size >= 1 else r.choice([0, 1])):
@@ -576,7 +585,10 @@ class Gen:
         # an overload set
         if r.random() < 0.7:
             oname = self.ident("ov_")
-            kinds = r.sample(["i", "f", "s", "ii", "o", "none"], r.choice([2, 3]))
+            kinds = r.sample(["i", "f", "s", "ii", "o", "none"] + (["b", "bs"] if getattr(self, "ext", False) else []),
+                             r.choice([2, 3]))
+            if getattr(self, "ext", False) and "s" in kinds and "b" not in kinds and r.random() < 0.5:
+                kinds.append("b")      # const std::string & next to bool: a char* would prefer bool
             seen_sigs = set()
             for kd in kinds:
                 ps = []
@@ -585,6 +597,8 @@ class Gen:
                         t = T("int", c="int")
                     elif ch == "f":
                         t = T("float", c="double")
+                    elif ch == "b":
+                        t = T("bool")
                     elif ch == "s":
                         t = T("string", ref=True) if getattr(self, "strings", True) else T("bool")
                     else:
@@ -610,6 +624,20 @@ class Gen:
                                           const=bm["const"], virtual=True, indent=ind, override=True)
                     f["overrides"] = bm["qname"]
                     cls["methods"].append(f)
+        if getattr(self, "ext", False):
+            # a method that HIDES a base-class virtual (same name and parameters, different constness): not an override
+            for b, _ in bases:
+                bc = self.classes[b]
+                for bm in bc["methods"]:
+                    if bm.get("virtual") and bm["kind"] == "method" and not bm.get("overload_set") and r.random() < 0.35 \
+                            and bm["name"] not in [m["name"] for m in cls["methods"]] and not bm["name"].startswith("operator"):
+                        ps = [dict(p, default=None, default_value=None) for p in bm["params"]]
+                        f = self.gen_function(cls, "method", name=bm["name"], ret=bm["ret"], params=ps,
+                                              const=not bm["const"], virtual=False, indent=ind)
+                        f["hides"] = bm["qname"]
+                        cls["methods"].append(f)
+            if r.random() < 0.35:
+                self.gen_seqprop(cls, ind)
         # operators
         if r.random() < 0.5 * self.size:
             for op in r.sample(["==", "+", "[]c", "()", "neg", "cast", "<"], r.choice([1, 2, 3])):
@@ -721,6 +749,30 @@ class Gen:
         cls["seqs"].append(dict(name=f"get_{sname}s", qname=cls["qname"] + f"::get_{sname}s", num=n["qname"],
                                 element=g["qname"]))
 
+    def gen_seqprop(self, cls, ind):
+        """MAKE_SEQ_PROPERTY with 2..5 accessor functions (num, get[, set[, remove[, insert]]])"""
+        r = self.r
+        sname = self.ident("sp_")
+        I = T("int", c="int")
+        P = lambda n, t=I: dict(name=n, type=t, default=None, default_value=None)
+        n = self.gen_function(cls, "method", name="get_num_" + sname, ret=I, params=[], const=True, indent=ind)
+        self.fix_body_return(n, "3")
+        g = self.gen_function(cls, "method", name="get_" + sname, ret=I, params=[P("n")], const=True, indent=ind)
+        fns = [n, g]
+        k = r.choice([2, 3, 4, 5, 5])
+        if k >= 3:
+            fns.append(self.gen_function(cls, "method", name="set_" + sname, ret=T("void"), params=[P("n"), P("v")], indent=ind))
+        if k >= 4:
+            fns.append(self.gen_function(cls, "method", name="remove_" + sname, ret=T("void"), params=[P("n")], indent=ind))
+        if k >= 5:
+            fns.append(self.gen_function(cls, "method", name="insert_" + sname, ret=T("void"), params=[P("n"), P("v")], indent=ind))
+        cls["methods"] += fns
+        d = self.doc(ind)
+        self.h.append(f"{ind}MAKE_SEQ_PROPERTY({sname}, " + ", ".join(f["name"] for f in fns) + ");")
+        roles = ["num", "get", "set", "remove", "insert"]
+        cls["seqprops"].append(dict(name=sname, qname=cls["qname"] + "::" + sname, doc=d,
+                                    **{roles[i]: fns[i]["qname"] for i in range(len(fns))}))
+
     def fix_body_return(self, fn, expr):
         """replace the computed result of the last emitted body by a constant expression"""
         i = len(self.cx) - 1
@@ -798,10 +850,14 @@ class Gen:
             self.model["functions"].append(self.gen_function(None, "free"))
         # a free overload set
         oname = self.ident("fov_")
-        for kd in r.sample(["i", "f", "s", "if", "none"], 2):
+        fk = ["i", "f", "s", "if", "none"] + (["b"] if getattr(self, "ext", False) else [])
+        fks = r.sample(fk, 2)
+        if getattr(self, "ext", False) and "s" in fks and "b" not in fks:
+            fks.append("b")
+        for kd in fks:
             ps = []
             for j, ch in enumerate(kd if kd != "none" else ""):
-                t = {"i": T("int", c="int"), "f": T("float", c="double"),
+                t = {"i": T("int", c="int"), "f": T("float", c="double"), "b": T("bool"),
                      "s": T("string", ref=True) if getattr(self, "strings", True) else T("bool")}[ch]
                 ps.append(dict(name=f"o{j}_{r.randrange(100)}", type=t, default=None, default_value=None))
             f = self.gen_function(None, "free", name=oname, params=ps)
@@ -879,12 +935,13 @@ class Lib:
 
 
 def generate(rng, name="liba", size=1.0, docs=True, native=False, prior=None, dep_bases=(), n_classes=None,
-             adversarial=False, strings=True, ordering=False, oddities=False, arrays=True):
+             adversarial=False, strings=True, ordering=False, oddities=False, arrays=True, ext=False):
     g = Gen(rng, name, size=size, docs=docs, native=native, prior=prior)
     g.strings = strings
     g.ordering = ordering
     g.oddities = oddities
     g.arrays = arrays
+    g.ext = ext       # v2 features: bool overloads, MAKE_SEQ_PROPERTY, nested classes, hiding methods
     g.generate(n_classes=n_classes, dep_bases=dep_bases)
     return Lib(g)
 
